@@ -1071,7 +1071,7 @@ func c22(r *vkit.Run) {
 		return
 	}
 	n := r.N(20000, 1000000)
-	vkit.Parallel(n, 0, func(i int) {
+	if !parallelUnlessStuck(r, n, func(i int) {
 		g := r.Rng("script", i)
 		var sc *c22Script
 		if g.Intn(10) < 7 {
@@ -1083,7 +1083,9 @@ func c22(r *vkit.Run) {
 			r.Sample(sc)
 		}
 		c22Check(r, sc, true)
-	})
+	}) {
+		return
+	}
 	var missing []string
 	for _, name := range []string{"reader_scripts", "writer_scripts", "reader_ops_that_refilled_from_source", "reader_peeks",
 		"reader_unread_nil", "reader_unread_error", "reader_writeto_delegated_to_source", "writer_flushes", "writer_sink_errors",
